@@ -47,7 +47,7 @@ def gate_story_case(draw):
     expected = [draw(st.lists(basis, min_size=1, max_size=2)) for _ in inputs]
     return {"prog": prog, "inputs": inputs, "ps": ps, "expected": expected,
             "use_expected": draw(st.booleans()), "single_expected": draw(st.booleans()),
-            "pc": draw(st.booleans()),
+            "pc": draw(st.booleans()), "late_rules": draw(st.booleans()),
             "exp_perm": list(draw(st.permutations(range(len(inputs)))))}
 
 
@@ -81,7 +81,7 @@ def story_case(draw):
     single_expected = draw(st.booleans())
     return {"prog": prog, "inputs": inputs, "ps": ps, "expected": expected,
             "use_expected": use_expected, "single_expected": single_expected,
-            "pc": draw(st.booleans()),
+            "pc": draw(st.booleans()), "late_rules": draw(st.booleans()),
             "exp_perm": list(draw(st.permutations(range(len(inputs)))))}
 
 
@@ -162,9 +162,12 @@ def run_story(case):
 
     # ---- Analyzer
     an = emulator.Analyzer(c)
-    real_ps = postsel.to_real(ps)
+    late = [] if case.get("late_rules") else None        # hand the object over empty, add the rules afterwards
+    real_ps = postsel.to_real(ps, late)
     if real_ps is not None:
         an.post_selection = real_ps
+    for add_rule in late or []:
+        add_rule()
     states = [lw.State(list(v)) for v in inputs]
     expected = None
     if case["use_expected"]:
@@ -255,8 +258,11 @@ def run_story(case):
                 cond[o] = ref.get(full_state(o, hout, n), 0.0)
             mass = sum(cond.values())
             n_cand = len(cond)
+            late = [] if case.get("late_rules") else None
             qs = emulator.QuickSampler(c, lw.State(list(vin)), photon_counting=pc,
-                                       post_select=postsel.to_real(ps))
+                                       post_select=postsel.to_real(ps, late))
+            for add_rule in late or []:
+                add_rule()
             if mass > 1e-12:
                 d = call("QuickSampler.probability_distribution", lambda q=qs: q.probability_distribution)
                 d = {tuple(k): v for k, v in d.items()}
